@@ -1,5 +1,6 @@
 import Heathcliff.Proofs.C14S
 import Heathcliff.Proofs.C14T
+import Heathcliff.Proofs.GenSerP
 /-
   C14  Serialization round-trips every object exactly, sizes exact, across contexts.
 
@@ -273,5 +274,65 @@ theorem validImpCtWF_refuted : type_of% @HC.Codec.c14t_validImpCtWF_refuted := @
 /-- converses of the elementary lemmas: fixed-length sequences and the compact polynomial codec accept exactly what fits -/
 theorem repC_valid_iff : type_of% @HC.Codec.c14t_repC_valid_iff := @HC.Codec.c14t_repC_valid_iff
 theorem polyC_valid_iff : type_of% @HC.Codec.c14t_polyC_valid_iff := @HC.Codec.c14t_polyC_valid_iff
+
+
+/-! ### translator phase 4i: the serializer SOURCE (src/serialize.rs, regenerated into Gen/SerFns.lean on every run) is the model
+    (Proofs/GenSer.lean writers, GenSerR.lean readers and sizes, GenSerL.lean compact-width helpers, GenSerP.lean these statements) -/
+
+/-- SOURCE WRITERS: on an in-memory stream every generated `serialize` (u64, usize, u8, bool, f64, Modulus, SchemeType, Vec<u64>,
+    Vec<Modulus>, ParmsID, EncryptionParameters, Plaintext, `write_u64_limited`) appends exactly `Codec.enc` and returns its length -/
+theorem gen_writers_produce_enc : type_of% @HC.GS.c14g_writers_produce_enc := @HC.GS.c14g_writers_produce_enc
+
+/-- SOURCE READERS: every generated `deserialize` is `Codec.dec`; `EncryptionParameters` = `paramsC.dec` followed by the count check of
+    `set_coeff_modulus` (a panic in the code); `read_u64_limited` = `limC.dec` for widths ≤ 8 on a stream of bytes -/
+theorem gen_readers_are_dec : type_of% @HC.GS.c14g_readers_are_dec := @HC.GS.c14g_readers_are_dec
+
+/-- SOURCE SIZES: every generated `serialized_size`, `get_u64_limit`, `Ciphertext::serialized_size / serialized_terms_size /
+    serialized_full_size` is the model's size function (`len_*`, `len_ct_rust`, … are about those) -/
+theorem gen_sizes_are_model : type_of% @HC.GS.c14g_sizes_are_model := @HC.GS.c14g_sizes_are_model
+
+/-- from source to source: generated `Plaintext::deserialize` ∘ generated `Plaintext::serialize` = identity, with continuation -/
+theorem gen_plain_source_round_trip : type_of% @HC.GS.c14g_plain_source_round_trip := @HC.GS.c14g_plain_source_round_trip
+
+/-- the same for `EncryptionParameters` with 1..64 coefficient moduli -/
+theorem gen_params_source_round_trip : type_of% @HC.GS.c14g_params_source_round_trip := @HC.GS.c14g_params_source_round_trip
+
+/-- the excluded point, as a theorem: a parameter object WITHOUT coefficient moduli is serialized, the model decodes it, the code's
+    reader refuses (panic in `set_coeff_modulus`) — the model's `paramsC` is more permissive than the code here -/
+theorem gen_params_empty_modulus_refused : type_of% @HC.GS.c14g_params_empty_modulus_refused := @HC.GS.c14g_params_empty_modulus_refused
+
+/-- `serialized_terms_size` of an empty unseeded ciphertext at a level with ≥ 1 modulus TRAPS in `upper - 1` (the model's closed form
+    returns a number there; cf. `c14s_TermsSizeStatement_false`) -/
+theorem gen_terms_size_traps_on_empty : type_of% @HC.GS.gr_ct_terms_size_traps := @HC.GS.gr_ct_terms_size_traps
+
+/-- the compact width from the SOURCE composed with the width rule: a residue below a `u64` modulus survives the generated
+    `write_u64_limited` / `read_u64_limited` pair exactly (bytes = model bytes, value back, rest untouched) -/
+theorem gen_limited_source_round_trip (q v : Nat) (hq : q < 2 ^ 64) (hv : v < q) (rest : Bytes) (hr : ∀ b ∈ rest, b < 256) :
+    ∃ w, HC.GenS.get_u64_limit q = .ok w ∧
+      HC.GenS.read_u64_limited w ((HC.GenS.write_u64_limited HC.GS.idealStream v w []).2 ++ rest) = .ok (v, rest) := by
+  refine ⟨u64Limit q, HC.GS.gr_get_u64_limit q hq, ?_⟩
+  have hw := u64Limit_width q v hv
+  have hwr := (HC.GS.c14g_writers_produce_enc []).2.2.2.2.2.2.2.2.2.2.2.2 v (u64Limit q) hw
+  rw [hwr]
+  simp only [List.nil_append]
+  have hb : ∀ b ∈ (limC (u64Limit q)).enc v ++ rest, b < 256 := by
+    intro b hb
+    rcases List.mem_append.mp hb with h | h
+    · have he : (limC (u64Limit q)).enc v = flat (seqChunks (List.replicate (u64Limit q) u8C) (leBytes (u64Limit q) v)) := rfl
+      rw [he] at h
+      exact HC.GS.gs_limC_enc_bytes _ _ b h
+    · exact hr b h
+  rw [HC.GS.gl_read_u64_limited _ (HC.GS.gl_u64Limit_le q hq) _ hb]
+  exact limited_round_trip q v hv rest
+
+/-! non-vacuity of the phase-4i statements -/
+example : HC.GenS.plain_deserialize ((HC.GenS.plain_serialize HC.GS.idealStream ⟨[1, 2, 3, 4], [7, 8], 4607182418800017408⟩ []).2 ++ [9, 9])
+    = .ok (⟨[1, 2, 3, 4], [7, 8], 4607182418800017408⟩, [9, 9]) := by rfl
+example : (HC.GenS.params_serialize HC.GS.idealStream ⟨1, 8, [17, 257], 65537, true⟩ []) =
+    (.ok 42, [1, 8,0,0,0,0,0,0,0, 2,0,0,0,0,0,0,0, 17,0,0,0,0,0,0,0, 1,1,0,0,0,0,0,0, 1,0,1,0,0,0,0,0, 1]) := by rfl
+example : HC.GenS.params_deserialize (HC.GenS.params_serialize HC.GS.idealStream ⟨1, 8, [17, 257], 65537, true⟩ []).2
+    = .ok (⟨1, 8, [17, 257], 65537, true⟩, []) := by rfl
+example : HC.GenS.ct_serialized_size ⟨[1, 2, 3, 4], 3, 8, [17, 65537]⟩ ⟨[1, 2, 3, 4], 2, true, 0, 1, false, [], fun _ => []⟩ = .ok (32 + 8 + 1 + 8 + 1 + 2 * 8 * 1 + 2 * 8 * 3) := by rfl
+example : HC.GenS.ct_serialized_terms_size ⟨[1, 2, 3, 4], 1, 8, [17]⟩ ⟨[1, 2, 3, 4], 0, true, 0, 1, false, [], fun _ => []⟩ 3 = .error .overflow := by rfl
 
 end HC.C14
